@@ -139,21 +139,32 @@ func (x *Exec) releaseAxioms() {
 	}
 	x.releasing = true
 	defer func() { x.releasing = false }()
+	for progress := true; progress; {
+		progress = x.releaseRound()
+	}
+}
+
+func (x *Exec) releaseRound() bool {
 	var rest []*Axiom
+	released := false
 	for _, ax := range x.pendingAx {
+		// an axiom is about its first uninterpreted function (in reading order): it is assumed as soon as that
+		// function occurs; the other functions it relates it to are declared on demand
 		ready := true
-		for _, u := range x.eng.axiomUFs(ax) {
-			if _, ok := x.ctx.named["spec|"+u]; !ok {
+		if ufs := x.eng.axiomUFs(ax); len(ufs) > 0 {
+			if _, ok := x.ctx.named["spec|"+ufs[0]]; !ok {
 				ready = false
 			}
 		}
 		if ready {
 			x.assumeAxiom(ax)
+			released = true
 		} else {
 			rest = append(rest, ax)
 		}
 	}
 	x.pendingAx = rest
+	return released
 }
 
 func (e *Engine) verifyFunc(fn *ssa.Function, fc *FuncContract) (rep *FuncReport) {
@@ -260,6 +271,19 @@ func (e *Engine) verifyFunc(fn *ssa.Function, fc *FuncContract) (rep *FuncReport
 			}
 		}
 		bindResults(vars, fn.Signature, fc, e, res)
+		// pointer overlays (addresses of elements / fields) are lost when the results are flattened: re-attach them
+		for i, rv := range r.vals {
+			if rv.P == nil {
+				continue
+			}
+			for k, bv := range vars {
+				if bv != nil && bv.P == nil && bv.T != nil && len(bv.C) == len(rv.C) && len(rv.C) == 1 && bv.C[0].S == rv.C[0].S && types.Identical(bv.T, rv.T) {
+					if k == fmt.Sprintf("result%d", i) || (len(r.vals) == 1 && k == "result") || fn.Signature.Results().At(i).Name() == k {
+						vars[k] = rv
+					}
+				}
+			}
+		}
 		env := &SpecEnv{x: x, vars: vars, st: r.st, old: fr.entrySt, fn: fn, frame: fr}
 		fr.reach = r.cond
 		fr.cur = r.st
